@@ -185,6 +185,62 @@ fn full_oracle(ctx: &Ctx, e: &mut Emu, r: &RefMem, roms: &Roms, hist: &[u8], hos
             ctx.add_eval(5);
         }
     }
+    // (iii) 16-bit accesses whose two bytes lie in different windows (..FF/..00 across 3FFF/4000,
+    // 7FFF/8000, BFFF/C000 and the FFFF/0000 wrap): LD HL,(nn), LD BC,(nn) (ED form), POP DE and
+    // LD (nn),HL must take/put the second byte in the NEXT WINDOW of the current map
+    for b in [0x3FFFu16, 0x7FFF, 0xBFFF, 0xFFFF] {
+        let lo = expected_byte(r, roms, &ram, b);
+        let hi = expected_byte(r, roms, &ram, b.wrapping_add(1));
+        let want = (hi as u16) << 8 | lo as u16;
+        let keep = [e.peek(CODE), e.peek(CODE + 1), e.peek(CODE + 2), e.peek(CODE + 3)];
+        rig::run_code(e, CODE, &[0x2A, b as u8, (b >> 8) as u8], 1);
+        let hl = e.verif_cpu().regs.get_hl();
+        rig::run_code(e, CODE, &[0xED, 0x4B, b as u8, (b >> 8) as u8], 1);
+        let bc = e.verif_cpu().regs.get_bc();
+        e.verif_cpu().regs.set_sp(b);
+        rig::run_code(e, CODE, &[0xD1], 1);
+        let de = e.verif_cpu().regs.get_de();
+        rig::poke(e, CODE, &keep);
+        for (name, got) in [("LD HL,(nn)", hl), ("LD BC,(nn)", bc), ("POP DE", de)] {
+            if got != want {
+                ctx.violation(
+                    &format!("C06:word-access:{}:boundary{:04x}", tag, b),
+                    &format!("{} at {:04x} with latch {:02x}: got {:04x}, the bytes the map holds at {:04x} and {:04x} are {:02x} and {:02x}", name, b, r.last, got, b, b.wrapping_add(1), lo, hi),
+                    json!({"kind":"word","history":hist,"addr":b,"host_rom":host_rom}),
+                );
+                break;
+            }
+        }
+        // store: LD (nn),HL with HL = 5AA5h, then both bytes through peek (ROM ignores its half)
+        let before = ram_snapshot(e);
+        e.verif_cpu().regs.set_hl(0x5AA5);
+        rig::run_code(e, CODE, &[0x22, b as u8, (b >> 8) as u8], 1);
+        rig::poke(e, CODE, &keep);
+        let after = ram_snapshot(e);
+        let mut expect = before.clone();
+        for (a, v) in [(b, 0xA5u8), (b.wrapping_add(1), 0x5A)] {
+            let (is_ram, page) = r.map()[(a >> 14) as usize];
+            if is_ram {
+                expect[page as usize][(a & 0x3FFF) as usize] = v;
+            }
+        }
+        if after != expect {
+            ctx.violation(
+                &format!("C06:word-store:{}:boundary{:04x}", tag, b),
+                &format!("LD ({:04x}),HL with latch {:02x}: RAM after the store is not RAM before with A5h/5Ah placed through the current map at {:04x}/{:04x}", b, r.last, b, b.wrapping_add(1)),
+                json!({"kind":"word","history":hist,"addr":b,"host_rom":host_rom}),
+            );
+        }
+        // keep the markers for the states that follow in this emulator
+        for (a, _) in [(b, 0u8), (b.wrapping_add(1), 0)] {
+            let (is_ram, page) = r.map()[(a >> 14) as usize];
+            if is_ram {
+                let off = (a & 0x3FFF) as usize;
+                rig::poke(e, a, &[before[page as usize][off]]);
+            }
+        }
+        ctx.add_eval(4);
+    }
 }
 
 /// Addresses that select the paging latch and nothing else (odd, A15=0, A1=0).
@@ -411,7 +467,7 @@ pub fn run(tier: Tier, seed: u64, replay: Option<String>) -> i32 {
     bfs_128(&ctx, &host, true);
     check_48(&ctx);
     ctx.finish(
-        "BFS from reset over the complete 128K paging state (last accepted 7FFD byte, lock, screen bank, map) with all 256 OUT values per state, each transition replayed on a fresh real Emulator (write executed by the emulated CPU; the instruction form OUT (C),A / OUT (n),A / OUTI / OUT (C),0 (for the value 0) and the port alias among 7FFD, 3FFD, 1FFD, 00FD, 7F3D, 5555 rotate with history position and value) in lock step with RefMem; in every distinct state: peek at all 65536 addresses, CPU stores/loads at 4 offsets x 4 windows with an all-banks RAM diff; embedded and host-supplied ROM sets (the latter with a host I/O extender installed that claims an unrelated port); 48K: all 256 values x 3 port aliases x 3 instruction forms leave map and memory unchanged. distinct = distinct paging states reached",
+        "BFS from reset over the complete 128K paging state (last accepted 7FFD byte, lock, screen bank, map) with all 256 OUT values per state, each transition replayed on a fresh real Emulator (write executed by the emulated CPU; the instruction form OUT (C),A / OUT (n),A / OUTI / OUT (C),0 (for the value 0) and the port alias among 7FFD, 3FFD, 1FFD, 00FD, 7F3D, 5555 rotate with history position and value) in lock step with RefMem; in every distinct state: peek at all 65536 addresses, CPU stores/loads at 4 offsets x 4 windows with an all-banks RAM diff, 16-bit loads/stores/POP whose two bytes straddle each window boundary; embedded and host-supplied ROM sets (the latter with a host I/O extender installed that claims an unrelated port); 48K: all 256 values x 3 port aliases x 3 instruction forms leave map and memory unchanged. distinct = distinct paging states reached",
         true,
         &["marker RAM is written with execute_poke through the 0xC000 window after CPU-executed paging OUTs", "hooks: verif_paging, verif_ram_bank (read-only)"],
     )
